@@ -139,6 +139,14 @@ M["M9_own_only_first_incomplete_forward_failed"] = [
     (SWITCH, "\t\tfor _, packet := range failedPackets {\n", "\t\tfor _, packet := range failedPackets[:1] {\n"),
 ]
 
+# Independently seeded regression (/verif/seeded/C07b): the fail the mailbox
+# builds when the OUTGOING link gives up on an ADD loses the reference to the
+# ADD in the incoming forwarding package.
+M["M10_seeded_mailbox_failadd_drops_sourceref"] = [
+    ("htlcswitch/mailbox.go", "\t\tcircuit:        pkt.circuit,\n\t\tsourceRef:      pkt.sourceRef,\n\t\thasSource:      true,\n",
+     "\t\tcircuit:        pkt.circuit,\n\t\thasSource:      true,\n"),
+]
+
 
 def build(name):
     if isinstance(M[name], str):
